@@ -109,6 +109,50 @@ class GitRepo:
         return {"tree": f[0], "parents": f[1].split(), "an": f[2], "ae": f[3], "ad": f[4], "cn": f[5], "ce": f[6], "cd": f[7],
                 "enc": f[8], "body": f[9]}
 
+    def log_fields_many(self, oids, expect_ok, max_single=None):
+        """fields of many commits: the objects expected to parse go through ONE `git log --stdin`; if git dies on that
+        batch (a prediction was wrong) or for the others, git is asked per object.  Every answer is git's own."""
+        res = {}
+        good = [o for o, e in zip(oids, expect_ok) if e]
+        if good:
+            uniq = list(dict.fromkeys(good))
+            rc, out, err = self.git("-c", "i18n.logOutputEncoding=", "-c", "log.mailmap=false", "log", "--no-walk=unsorted", "--stdin", "-z",
+                                    "--date=raw", "--no-color", "--no-notes", "--no-decorate", "--format=%H%x00" + self.LOGFMT,
+                                    inp=("\n".join(uniq) + "\n").encode(), timeout=600)
+            f = out.split(b"\0")
+            if rc == 0 and len(f) == 11 * len(uniq) + 1:
+                for k in range(len(uniq)):
+                    h, t, p, an, ae, ad, cn, ce, cd, enc, body = f[11 * k: 11 * k + 11]
+                    res[h.decode()] = {"tree": t, "parents": p.split(), "an": an, "ae": ae, "ad": ad, "cn": cn, "ce": ce, "cd": cd,
+                                       "enc": enc, "body": body + b"\n"}
+        rest = [o for o in dict.fromkeys(oids) if o not in res]
+        skipped = rest[max_single:] if max_single is not None else []
+        rest = rest[:max_single] if max_single is not None else rest
+        for o, r in zip(rest, self.pmap(self.log_fields, rest)):
+            res[o] = r
+        return [res.get(o, "unasked") for o in oids]
+
+    def tag_fields_many(self, oids, expect_ok, prefix, max_single=None):
+        res = {}
+        good = list(dict.fromkeys(o for o, e in zip(oids, expect_ok) if e))
+        if good:
+            ns = "refs/tags/%s" % prefix
+            upd = "".join("create %s/%s %s\n" % (ns, o, o) for o in good)
+            rc, out, err = self.git("update-ref", "--stdin", inp=upd.encode(), timeout=600)
+            if rc == 0:
+                rc, out, err = self.git("for-each-ref", "--format=%(refname)%00" + self.TAGFMT + "%00", ns + "/", timeout=600)
+                f = out.split(b"\0")
+                if rc == 0 and len(f) == 8 * len(good) + 1:
+                    for k in range(len(good)):
+                        ref, ob, ty, tg, tn, te, td, contents = f[8 * k: 8 * k + 8]
+                        res[ref.decode().strip().rsplit("/", 1)[1]] = {"object": ob, "type": ty, "tag": tg, "tn": tn, "te": te, "td": td,
+                                                                        "contents": contents + b"\n"}
+        rest = [o for o in dict.fromkeys(oids) if o not in res]
+        rest = rest[:max_single] if max_single is not None else rest
+        for o, r in zip(rest, self.pmap(lambda io: self.tag_fields(io[1], "refs/tags/%s-single/%d" % (prefix, io[0])), list(enumerate(rest)))):
+            res[o] = r
+        return [res.get(o, "unasked") for o in oids]
+
     TAGFMT = "%(object)%00%(type)%00%(tag)%00%(taggername)%00%(taggeremail)%00%(taggerdate:raw)%00%(contents)"
 
     def tag_fields(self, oid, ref):
